@@ -1356,3 +1356,130 @@ def pm_render(t):
 
 def prog_meaning(spec):
     return pm_render(pm_tree(spec))
+
+
+# ------------------------------------------------------------------ shrinking a failing input
+
+def shrink_candidates(fb):
+    """trees one step smaller than fb: an operand dropped from a chain, a group replaced by its
+    content or by one operand, a qualifier dropped, a path step or a set element dropped"""
+    out = []
+
+    def chain(items, sub, rebuild):
+        for i in range(len(items)):
+            if len(items) > 1:
+                out.append(rebuild(items[:i] + items[i + 1:]))
+            for alt in sub(items[i]):
+                out.append(rebuild(items[:i] + [alt] + items[i + 1:]))
+
+    def v_path(pa):
+        alts = []
+        for i in range(len(pa[3])):
+            alts.append(["path", pa[1], pa[2], pa[3][:i] + pa[3][i + 1:]])
+        return alts
+
+    def v_pt(p):
+        alts = []
+        k = p[0]
+        if k == "paren":
+            for o in v_or(p[1]):
+                alts.append(["paren", o])
+            if len(p[1]) == 1 and len(p[1][0]) == 1:
+                alts.append(p[1][0][0])
+        elif k in ("eq", "ord"):
+            alts += [[k, q, p[2], p[3], p[4]] for q in v_path(p[1])]
+            if p[2]:
+                alts.append([k, p[1], False, p[3], p[4]])
+        elif k == "set":
+            alts += [[k, q, p[2], p[3]] for q in v_path(p[1])]
+            alts += [[k, p[1], p[2], p[3][:i] + p[3][i + 1:]] for i in range(len(p[3]))]
+            if p[2]:
+                alts.append([k, p[1], False, p[3]])
+        elif k == "str":
+            alts += [[k, p[1], q, p[3], p[4]] for q in v_path(p[2])]
+            if p[3]:
+                alts.append([k, p[1], p[2], False, p[4]])
+        return alts
+
+    def v_and(a):
+        res = []
+        for i in range(len(a)):
+            if len(a) > 1:
+                res.append(a[:i] + a[i + 1:])
+            for alt in v_pt(a[i]):
+                res.append(a[:i] + [alt] + a[i + 1:])
+        return res
+
+    def v_or(o):
+        res = []
+        for i in range(len(o)):
+            if len(o) > 1:
+                res.append(o[:i] + o[i + 1:])
+            for alt in v_and(o[i]):
+                res.append(o[:i] + [alt] + o[i + 1:])
+        return res
+
+    def v_obs(o):
+        alts = []
+        if o[0] == "simple":
+            alts += [["simple", e] for e in v_or(o[1])]
+        elif o[0] == "compound":
+            alts += [["compound", e] for e in v_fb(o[1])]
+            if len(o[1]) == 1 and len(o[1][0]) == 1 and len(o[1][0][0]) == 1:
+                alts.append(o[1][0][0][0])
+        else:
+            alts.append(o[1])
+            alts += [["qual", x, o[2]] for x in v_obs(o[1])]
+        return alts
+
+    def v_list(items, sub):
+        res = []
+        for i in range(len(items)):
+            if len(items) > 1:
+                res.append(items[:i] + items[i + 1:])
+            for alt in sub(items[i]):
+                res.append(items[:i] + [alt] + items[i + 1:])
+        return res
+
+    def v_oand(a):
+        return v_list(a, v_obs)
+
+    def v_oor(a):
+        return v_list(a, v_oand)
+
+    def v_fb(a):
+        return v_list(a, v_oor)
+    return v_fb(fb)
+
+
+def shrink_candidates_prog(spec):
+    out = []
+
+    def alts(s):
+        k = s["k"]
+        res = []
+        if k == "cmp":
+            comps = s["lhs"]["comps"]
+            if len(comps) > 1 and "lhs_text" not in s:
+                for i in range(len(comps)):
+                    res.append(dict(s, lhs={"type": s["lhs"]["type"], "comps": comps[:i] + comps[i + 1:]}))
+            if s["neg"]:
+                res.append(dict(s, neg=False))
+        elif k in ("bool", "cpd"):
+            ops = s["ops"]
+            for i in range(len(ops)):
+                if len(ops) > 2:
+                    res.append(dict(s, ops=ops[:i] + ops[i + 1:]))
+                res.append(ops[i])
+                for a in alts(ops[i]):
+                    res.append(dict(s, ops=ops[:i] + [a] + ops[i + 1:]))
+        elif k in ("obs", "paren", "qualified"):
+            if k != "obs":
+                res.append(s["e"])
+            for a in alts(s["e"]):
+                res.append(dict(s, e=a))
+        return res
+    for a in alts(spec):
+        if a["k"] in ("obs", "cpd", "paren", "qualified"):       # still an observation-level object
+            out.append(a)
+    return out
